@@ -16,13 +16,16 @@ use std::{
     cmp::Ordering,
     collections::HashMap,
     fmt::Display,
-    hash::RandomState,
-    sync::{Arc, Mutex, atomic::AtomicBool},
+    sync::{Arc, atomic::AtomicBool},
     time::{Duration, SystemTime},
 };
 
+#[cfg(not(feature = "verif-hooks"))]
 use arc_swap::ArcSwapOption;
-use scion_sdk_utils::backoff::ExponentialBackoff;
+use scion_sdk_utils::{
+    backoff::ExponentialBackoff,
+    verif::{self, Mutex, RandomState, TaskHandle},
+};
 use sciparse::{
     identifier::isd_asn::IsdAsn,
     path::{ScionPath, fingerprint::data_plane::DpPathFingerprint},
@@ -33,10 +36,11 @@ use tokio::{
         Notify,
         broadcast::{self},
     },
-    task::JoinHandle,
 };
 use tracing::{Instrument, instrument};
 
+#[cfg(feature = "verif-hooks")]
+use crate::path::manager::verif_shim::ArcSwapOption;
 use crate::path::{
     PathStrategy,
     fetcher::traits::{PathFetchError, PathFetcher},
@@ -111,7 +115,7 @@ impl<F: PathFetcher> PathSet<F> {
         config: MultiPathManagerConfig,
         issue_rx: broadcast::Receiver<(u64, IssueMarker)>,
     ) -> Self {
-        Self::new_with_time(src, dst, manager, config, issue_rx, SystemTime::now())
+        Self::new_with_time(src, dst, manager, config, issue_rx, verif::system_now())
     }
 
     pub fn new_with_time(
@@ -170,11 +174,13 @@ impl<F: PathFetcher> PathSet<F> {
                         let Some(manager) = self.manager.upgrade() else {
                             return "manager dropped";
                         };
-                        self.fetch_and_update(SystemTime::now(), &manager).await;
+                        self.fetch_and_update(verif::system_now(), &manager).await;
+                        #[cfg(feature = "verif-hooks")]
+                        self.verif_publish("started");
                     }
 
                     loop {
-                        let now = SystemTime::now();
+                        let now = verif::system_now();
                         tracing::trace!("Managed paths task tick");
                         let next_tick = self.next_maintain(now);
 
@@ -185,14 +191,16 @@ impl<F: PathFetcher> PathSet<F> {
                                 return "cancelled";
                             }
                             // Maintenance Tick
-                            () = tokio::time::sleep(next_tick) => {
+                            () = verif::sleep(next_tick) => {
                                 let Some(manager) = self.manager.upgrade() else {
                                     return "manager dropped";
                                 };
 
-                                if let Some(reason) = self.maintain(SystemTime::now(), &manager).await {
+                                if let Some(reason) = self.maintain(verif::system_now(), &manager).await {
                                     return reason;
                                 }
+                                #[cfg(feature = "verif-hooks")]
+                                self.verif_publish("maintained");
                             }
                             // Issue Notifications
                             issue = self.internal.issue_rx.recv() => {
@@ -200,9 +208,11 @@ impl<F: PathFetcher> PathSet<F> {
                                     return "manager dropped";
                                 };
 
-                                if let Some(reason) = self.handle_issue_rx(SystemTime::now(), issue, &manager) {
+                                if let Some(reason) = self.handle_issue_rx(verif::system_now(), issue, &manager) {
                                     return reason;
                                 }
+                                #[cfg(feature = "verif-hooks")]
+                                self.verif_publish("issue-handled");
                             }
                         }
                     }
@@ -236,7 +246,7 @@ impl<F: PathFetcher> PathSet<F> {
         (
             PathSetHandle { shared },
             PathSetTask {
-                task: tokio::spawn(task.in_current_span()),
+                task: verif::spawn("path-set", task.in_current_span()),
                 cancel_token,
             },
         )
@@ -817,6 +827,35 @@ impl<F: PathFetcher> PathSet<F> {
     }
 }
 
+#[cfg(feature = "verif-hooks")]
+impl<F: PathFetcher> PathSet<F> {
+    /// Publishes the worker's state to an installed simulator.
+    fn verif_publish(&self, step: &'static str) {
+        let Some(manager) = self.manager.upgrade() else {
+            return;
+        };
+        let now = verif::system_now();
+        let scoring = &manager.0.path_strategy.scoring;
+        let probe = crate::path::manager::verif_shim::PathSetProbe {
+            src: self.src,
+            dst: self.dst,
+            step,
+            now,
+            cached: self
+                .internal
+                .cached_paths
+                .iter()
+                .map(|p| (p.path.clone(), scoring.score(p, now), p.reliability.score(now).value()))
+                .collect(),
+            active: self.shared.active_path.load().as_ref().map(|p| p.1),
+            next_refetch: self.internal.next_refetch,
+            next_idle_check: self.internal.next_idle_check,
+            failed_attempts: self.internal.failed_attempts,
+        };
+        verif::probe("pathset", &probe);
+    }
+}
+
 /// Decision on active path update, including reason
 #[derive(Debug, PartialEq, Eq)]
 enum ActivePathDecision {
@@ -971,7 +1010,7 @@ pub struct PathSetTask {
     /// Held to keep the background task's join handle alive for the lifetime of the task entry;
     /// it is not otherwise read outside of tests.
     #[allow(dead_code)]
-    pub task: JoinHandle<()>,
+    pub task: TaskHandle,
     pub cancel_token: tokio_util::sync::CancellationToken,
 }
 
